@@ -232,3 +232,12 @@ reg("C14",
                      "Executor.map returns results in submission order and runs each task once (documented contract, trusted)",
                      "surface_flux is documented as ignored by the parallel driver; the statement is read for surface_flux=None"],
     assumptions=["tower names distinct (a dict cannot hold two towers with one name)", "every task completes under the schedule"])
+
+reg("C18",
+    T("Proofs.C18", "BLDFM.C18", ["roundtrip_fields", "labels", "sel_by_name", "sel_by_time", "tower_metadata_attached", "met_values"])
+    + T("Proofs.C14", "BLDFM.C14", ["parallel_eq_serial", "multitower_eq_singles"]),
+    kernel_groups=[],
+    partial_clauses=["byte fidelity of float64 through netCDF4 + zlib + xarray (incl. _FillValue handling), string coordinate encoding: observed on adversarial bit patterns, not proved",
+                     "the roughness length itself has no slot in the file; the statement is read for the four per-step fields",
+                     "a result dict whose key order differs from the config's tower order mis-attaches metadata: outside the documented input (drivers return config order, C14)"],
+    assumptions=["result keys are the configuration's tower names in configuration order", "tower names distinct, time labels distinct"])
